@@ -95,8 +95,14 @@ def run_cases(mod, cases, nproc=None):
         return
     ctx = mp.get_context("fork")
     chunk = max(1, min(64, len(args) // (nproc * 8) or 1))
+    if hasattr(mod, "weight"):
+        # heavy cases first, one per task: avoids stragglers at the end of the run
+        order = sorted(range(len(args)), key=lambda i: -mod.weight(cases[i]))
+        args = [args[i] for i in order]
+        chunk = 1
     with ctx.Pool(nproc) as pool:
-        for res in pool.imap(_safe_run, args, chunksize=chunk):
+        for res in pool.imap_unordered(_safe_run, args, chunksize=chunk) if chunk == 1 else \
+                pool.imap(_safe_run, args, chunksize=chunk):
             yield res
 
 
